@@ -50,9 +50,24 @@ func readSmall(r restlicodec.Reader) error {
 	})
 }
 
+// steps counts callback invocations of the running program; a reader that keeps calling back without
+// consuming input (a loop that never ends) is stopped and reported long before the hang watchdog.
+var steps int64
+
+type runaway struct{}
+
+func tick() {
+	steps++
+	if steps > stepLimit {
+		panic(runaway{})
+	}
+}
+
+var stepLimit int64 = 1 << 20
+
 func handPrograms() []program {
-	str := func(r restlicodec.Reader) error { _, err := r.ReadString(); return err }
-	i32 := func(r restlicodec.Reader) error { _, err := r.ReadInt32(); return err }
+	str := func(r restlicodec.Reader) error { tick(); _, err := r.ReadString(); return err }
+	i32 := func(r restlicodec.Reader) error { tick(); _, err := r.ReadInt32(); return err }
 	return []program{
 		{"ReadString", str},
 		{"ReadInt32", i32},
@@ -63,7 +78,7 @@ func handPrograms() []program {
 		{"ReadMap<string>", func(r restlicodec.Reader) error {
 			return r.ReadMap(func(r restlicodec.Reader, k string) error { return str(r) })
 		}},
-		{"ReadArray<int32>", func(r restlicodec.Reader) error { return r.ReadArray(i32) }},
+		{"ReadArray<int32>", func(r restlicodec.Reader) error { tick(); return r.ReadArray(i32) }},
 		{"ReadRecord{a,b}", readSmall},
 		{"ReadRecord{r:{a,b},t}", func(r restlicodec.Reader) error {
 			return readRec(r, []string{"r"}, func(r restlicodec.Reader, f string) error {
@@ -77,7 +92,7 @@ func handPrograms() []program {
 			})
 		}},
 		{"ReadInterface", func(r restlicodec.Reader) error { _, err := r.ReadInterface(); return err }},
-		{"Skip", func(r restlicodec.Reader) error { return r.Skip() }},
+		{"Skip", func(r restlicodec.Reader) error { tick(); return r.Skip() }},
 		{"ReadRawBytes", func(r restlicodec.Reader) error { _, err := r.ReadRawBytes(); return err }},
 		{"Union{a:int32|b:{a,b}}", func(r restlicodec.Reader) error {
 			return r.ReadMap(func(r restlicodec.Reader, k string) error {
@@ -91,7 +106,20 @@ func handPrograms() []program {
 			})
 		}},
 		{"ReadMap<Array<int32>>", func(r restlicodec.Reader) error {
-			return r.ReadMap(func(r restlicodec.Reader, k string) error { return r.ReadArray(i32) })
+			return r.ReadMap(func(r restlicodec.Reader, k string) error { tick(); return r.ReadArray(i32) })
+		}},
+		{"ReadArray<Array<int32>>", func(r restlicodec.Reader) error {
+			return r.ReadArray(func(r restlicodec.Reader) error { tick(); return r.ReadArray(i32) })
+		}},
+		{"ReadArray<Array<Array<int32>>>", func(r restlicodec.Reader) error {
+			return r.ReadArray(func(r restlicodec.Reader) error {
+				return r.ReadArray(func(r restlicodec.Reader) error { tick(); return r.ReadArray(i32) })
+			})
+		}},
+		{"ReadMap<Map<Array<int32>>>", func(r restlicodec.Reader) error {
+			return r.ReadMap(func(r restlicodec.Reader, k string) error {
+				return r.ReadMap(func(r restlicodec.Reader, k string) error { tick(); return r.ReadArray(i32) })
+			})
 		}},
 		{"ReadArray<Map<string>>", func(r restlicodec.Reader) error {
 			return r.ReadArray(func(r restlicodec.Reader) error {
@@ -100,7 +128,7 @@ func handPrograms() []program {
 		}},
 		{"RawRecord", func(r restlicodec.Reader) error { var rr restlidata.RawRecord; return rr.UnmarshalRestLi(r) }},
 		{"ReadArray<Skip>", func(r restlicodec.Reader) error {
-			return r.ReadArray(func(r restlicodec.Reader) error { return r.Skip() })
+			return r.ReadArray(func(r restlicodec.Reader) error { tick(); return r.Skip() })
 		}},
 		{"ReadMap<RawBytes>", func(r restlicodec.Reader) error {
 			return r.ReadMap(func(r restlicodec.Reader, k string) error { _, err := r.ReadRawBytes(); return err })
@@ -149,8 +177,13 @@ var current atomic.Value
 // runProgram runs one program on one reader; returns "" or a failure kind + site.
 func runProgram(mk func() (restlicodec.Reader, error), p program) (kind, site, detail string) {
 	atomic.AddInt64(&progress, 1)
+	steps = 0
 	defer func() {
 		if r := recover(); r != nil {
+			if _, ok := r.(runaway); ok {
+				kind, site, detail = "runaway-loop", "callbacks", fmt.Sprintf("the reader invoked its callbacks more than %d times on this finite input", stepLimit)
+				return
+			}
 			st := string(debug.Stack())
 			kind, site, detail = "panic", panicSite(st), fmt.Sprint(r)
 		}
